@@ -4,7 +4,7 @@ import cxx_specs as XS
 
 PROPERTY = "C11"
 LEVEL = "proof"
-EXPLANATION = ""
+EXPLANATION = ('Proof of the Blake2b framing of RFC 7693 3.3 on the unmodified blake2b.c: parameter block, key block, block split, 128-bit byte counter, last-block flag, zero padding and output truncation for every message length (loop contract over the block loop), with the compression function F abstract; and that the commitment is Blake2b-256 of input || hash.')
 TRUSTED = ["blake2b_compress == RFC 7693 compression function F (abstract in every obligation; pinned by the 10 digest vectors of the suite)",
            "stubs/memstub.c: memcpy/memset over-approximation with two precisely tracked destination bytes"]
 ASSUMPTIONS = ["message lengths are bounded by CBMC's largest representable object (2^54 bytes)"]
@@ -26,17 +26,21 @@ def ob(name, entry, enforce, replace, stub=True, **kw):
 WOVEN_ARITH = {"weave": "@repo/src/blake2/blake2b.c", "out": "blake2b_woven.c", "header": True,
                "loops": [{"function": "blake2b_update", "expect_loops": 1, "loops": {"0": "RXV_UPDATE_LOOP_INVARIANT_ARITH"}}]}
 OBLIGATIONS = [
-    dict(ob("update_arith_contract", "h_update", "randomx_blake2b_update/rxv_update_arith", ["blake2b_compress"], loop_contracts=True,
+    dict(ob("update_arith_contract", "h_update", "randomx_blake2b_update/rxv_update_arith", ["blake2b_compress"], loop_contracts=True, tier="thorough",
+            backend="kissat", timeout=3600, expect_classes=["postcondition", "loop_invariant_base", "loop_invariant_step"], weight=5),
+         files=[WOVEN_ARITH, "harness_blake2b.c", "ghost_blake2b.c", "@stubs/memstub128.c"]),
+    dict(ob("update_contract", "h_update", "randomx_blake2b_update", ["blake2b_compress"], loop_contracts=True, tier="attempt", timeout=7200, backend="kissat",
             expect_classes=["postcondition", "loop_invariant_base", "loop_invariant_step"], weight=5),
-         files=[WOVEN_ARITH, "harness_blake2b.c", "ghost_blake2b.c", "@stubs/memstub.c"]),
-    dict(ob("TRY_update_arith_kissat", "h_update", "randomx_blake2b_update/rxv_update_arith", ["blake2b_compress"], loop_contracts=True, tier="try", backend="kissat", timeout=2400,
-            expect_classes=["postcondition", "loop_invariant_base", "loop_invariant_step"], weight=5),
-         files=[WOVEN_ARITH, "harness_blake2b.c", "ghost_blake2b.c", "@stubs/memstub.c"]),
-    dict(ob("TRY_update_arith_cadical", "h_update", "randomx_blake2b_update/rxv_update_arith", ["blake2b_compress"], loop_contracts=True, tier="try", backend="cadical", timeout=2400,
-            expect_classes=["postcondition", "loop_invariant_base", "loop_invariant_step"], weight=5),
-         files=[WOVEN_ARITH, "harness_blake2b.c", "ghost_blake2b.c", "@stubs/memstub.c"]),
-    ob("update_contract", "h_update", "randomx_blake2b_update", ["blake2b_compress"], loop_contracts=True, tier="thorough", timeout=7200,
-       expect_classes=["postcondition", "loop_invariant_base", "loop_invariant_step"], weight=5),
+         files=[WOVEN, "harness_blake2b.c", "ghost_blake2b.c", "@stubs/memstub128.c"]),
+    dict(ob("update_arith_contract_input_fits_buffer", "h_update", "randomx_blake2b_update/rxv_update_arith_small", ["blake2b_compress"], loop_contracts=True,
+            backend="kissat", expect_classes=["postcondition"], expect_min=4, weight=3),
+         files=[WOVEN_ARITH, "harness_blake2b.c", "ghost_blake2b.c", "@stubs/memstub128.c"]),
+    dict(ob("update_arith_contract_one_block_completed", "h_update", "randomx_blake2b_update/rxv_update_arith_oneblock", ["blake2b_compress"], loop_contracts=True,
+            backend="kissat", expect_classes=["postcondition"], expect_min=4, weight=3),
+         files=[WOVEN_ARITH, "harness_blake2b.c", "ghost_blake2b.c", "@stubs/memstub128.c"]),
+    dict(ob("update_contract_input_fits_buffer", "h_update", "randomx_blake2b_update/rxv_update_small", ["blake2b_compress"], loop_contracts=True,
+            backend="kissat", expect_classes=["postcondition"], expect_min=8, weight=3, tier="attempt"),
+         files=[WOVEN, "harness_blake2b.c", "ghost_blake2b.c", "@stubs/memstub128.c"]),
     ob("final_contract", "h_final", "randomx_blake2b_final", ["blake2b_compress"],
        unwindset=["memcpy.0:9", "memset.0:17", "randomx_blake2b_final.0:9"]),
     ob("init_param_contract", "h_init_param", "randomx_blake2b_init_param", [], stub=False,
